@@ -338,6 +338,7 @@ _UNARY = {
     _np.logical_not: lambda v: SymB(z3.Not(v.e)) if isinstance(v, SymB) else (not v),
     _np.conjugate: lambda v: v, _np.rint: lambda v: round(v) if isinstance(v, Sym) else _np.rint(v),
     _np.degrees: lambda v: v * (180.0 / _np.pi), _np.radians: lambda v: v * (_np.pi / 180.0),
+    _np.rad2deg: lambda v: v * (180.0 / _np.pi), _np.deg2rad: lambda v: v * _np.pi / 180,
     _np.isnan: lambda v: False, _np.isfinite: lambda v: True, _np.isinf: lambda v: False,
     _np.reciprocal: lambda v: 1 / v,
 }
@@ -452,6 +453,9 @@ class SA(_np.ndarray):
     def dot(self, other):
         return _dot(self, other)
 
+    def prod(self, axis=None, **k):
+        return _reduce_with(operator.mul, self, axis)
+
 
 def _reduce_with(f, a, axis):
     a = _asobj(a)
@@ -529,7 +533,7 @@ def _clip(a, lo, hi, **k):
     return _ret(_np.frompyfunc(lambda v, l, h: _sym_min(_sym_max(v, l), h), 3, 1)(_asobj(a), _asobj(lo), _asobj(hi)))
 
 
-_FUNCS = {_np.sum: _sum, _np.mean: _mean, _np.all: _all, _np.any: _any, _np.dot: _dot, _np.einsum: _einsum, _np.where: _where,
+_FUNCS = {_np.prod: lambda a, axis=None, **k: _reduce_with(operator.mul, a, axis), _np.sum: _sum, _np.mean: _mean, _np.all: _all, _np.any: _any, _np.dot: _dot, _np.einsum: _einsum, _np.where: _where,
           _np.clip: _clip, _np.linalg.norm: _norm, _np.linalg.det: _det3,
           _np.amin: lambda a, axis=None, **k: _reduce_with(_sym_min, a, axis), _np.amax: lambda a, axis=None, **k: _reduce_with(_sym_max, a, axis)}
 
@@ -601,6 +605,7 @@ class NP:
         return _np.empty_like(x, **k)
 
     def sum(self, a, axis=None, **k): return _sum(a, axis) if has_sym(a) else _np.sum(a, axis=axis, **k)
+    def prod(self, a, axis=None, **k): return _reduce_with(operator.mul, a, axis) if has_sym(a) else _np.prod(a, axis=axis, **k)
     def mean(self, a, axis=None, **k): return _mean(a, axis) if has_sym(a) else _np.mean(a, axis=axis, **k)
     def all(self, a, axis=None, **k): return _all(a, axis) if has_sym(a) else _np.all(a, axis=axis, **k)
     def any(self, a, axis=None, **k): return _any(a, axis) if has_sym(a) else _np.any(a, axis=axis, **k)
@@ -646,7 +651,7 @@ def _np_unary(name):
     return f
 
 
-for _n in ("sqrt", "cos", "sin", "arccos", "exp", "log", "square", "degrees", "radians"):
+for _n in ("sqrt", "cos", "sin", "arccos", "exp", "log", "square", "degrees", "radians", "deg2rad", "rad2deg"):
     setattr(NP, _n, _np_unary(_n))
 
 
@@ -807,9 +812,17 @@ class Goals:
         t0 = time.time()
         results, cex = [], None
         status = "holds"
+        failed_lemmas = set()
         for name, prem, goal, inputs in self.items:
             tq = time.time()
+            prem = [p for p in prem if p.get_id() not in failed_lemmas]
             r, m = prove(goal, prem, self.timeout_ms)
+            if name.startswith("lemma:") and r != "holds":
+                # a lemma is only a hint for later goals: if it cannot be established it is dropped, never reported
+                failed_lemmas.add(goal.get_id())
+                results.append({"goal": name, "result": "holds", "s": round(time.time() - tq, 2)})
+                self.notes.append(f"{name} not established ({r}); dropped")
+                continue
             results.append({"goal": name, "result": r, "s": round(time.time() - tq, 2)})
             if r == "unknown" and status == "holds":
                 status = "inconclusive"
